@@ -50,6 +50,8 @@ pub struct Streams {
     pub n_comments: usize,
     /// comments that share their line with the preceding token (trailing trivia)
     pub n_trailing_comments: usize,
+    /// (prefix + first word, is-trailing) of every comment line, in order
+    pub comment_classes: Vec<(String, bool)>,
 }
 
 struct Walker<'a> {
@@ -59,6 +61,7 @@ struct Walker<'a> {
     stack: Vec<Frame<'a>>,
     n_comments: usize,
     n_trailing_comments: usize,
+    comment_classes: Vec<(String, bool)>,
     /// Element index at which the decorations (attributes + visibility) of the `use` item walked
     /// last ended.
     use_dec_end: usize,
@@ -109,6 +112,8 @@ impl<'a> Walker<'a> {
             if is_comment_kind(k) {
                 let text = t.text(self.db).map(|s| s.long(self.db).to_string()).unwrap_or_default();
                 self.comment(&text);
+                let key: String = text.split_whitespace().take(2).collect::<Vec<_>>().join(" ");
+                self.comment_classes.push((key, trailing));
                 if trailing {
                     self.n_trailing_comments += 1;
                 }
@@ -297,6 +302,7 @@ pub fn streams<'a>(db: &'a dyn Database, root: &SyntaxNode<'a>) -> Streams {
         stack: vec![],
         n_comments: 0,
         n_trailing_comments: 0,
+        comment_classes: vec![],
         use_dec_end: 0,
     };
     w.walk(root);
@@ -305,6 +311,7 @@ pub fn streams<'a>(db: &'a dyn Database, root: &SyntaxNode<'a>) -> Streams {
         secs: w.secs,
         n_comments: w.n_comments,
         n_trailing_comments: w.n_trailing_comments,
+        comment_classes: w.comment_classes,
     }
 }
 
@@ -323,6 +330,31 @@ pub struct CaseOutcome {
     pub panic_msg: String,
     /// (comments, trailing comments) of the input and of the output
     pub comments: [usize; 4],
+    /// comments that were on a line of their own in the input and follow a token on its line in the
+    /// output ("joined"), and the converse ("detached") — triage information only
+    pub comment_moves: [usize; 2],
+}
+
+/// Matches the comments of input and output by their first words (per key in order).
+fn comment_moves(a: &[(String, bool)], b: &[(String, bool)]) -> [usize; 2] {
+    use std::collections::HashMap;
+    let mut by_key: HashMap<&str, std::collections::VecDeque<bool>> = HashMap::new();
+    for (k, t) in b {
+        by_key.entry(k.as_str()).or_default().push_back(*t);
+    }
+    let (mut joined, mut detached) = (0, 0);
+    for (k, t) in a {
+        if let Some(q) = by_key.get_mut(k.as_str())
+            && let Some(t2) = q.pop_front()
+        {
+            if !*t && t2 {
+                joined += 1;
+            } else if *t && !t2 {
+                detached += 1;
+            }
+        }
+    }
+    [joined, detached]
 }
 
 pub fn run_case(text: &str, cfg: &Value) -> CaseOutcome {
@@ -349,6 +381,7 @@ pub fn run_case(text: &str, cfg: &Value) -> CaseOutcome {
                 n_elems: 0,
                 panic_msg: msg,
                 comments: [0; 4],
+                comment_moves: [0; 2],
             }
         }
     }
@@ -368,6 +401,7 @@ fn run_case_inner(text: &str, cfg: &Value) -> CaseOutcome {
             n_elems: 0,
             panic_msg: String::new(),
             comments: [0; 4],
+            comment_moves: [0; 2],
         };
     }
     let config = config_from_json(cfg);
@@ -380,6 +414,7 @@ fn run_case_inner(text: &str, cfg: &Value) -> CaseOutcome {
     let sout = streams(&db, &root1);
     let n_elems = sin.elems.len() + sout.elems.len();
     let comments = [sin.n_comments, sin.n_trailing_comments, sout.n_comments, sout.n_trailing_comments];
+    let comment_moves = comment_moves(&sin.comment_classes, &sout.comment_classes);
     let trace = json!({
         "cfg": {"sort": cfg["sort"].as_bool().unwrap_or(false),
                 "merge": cfg["merge"].as_bool().unwrap_or(false),
@@ -397,6 +432,7 @@ fn run_case_inner(text: &str, cfg: &Value) -> CaseOutcome {
         n_elems,
         panic_msg: String::new(),
         comments,
+        comment_moves,
     }
 }
 
